@@ -153,10 +153,9 @@ class Count(Factory, Container):
             if self.transform is identity:
                 self.entries += float(weights.sum())
             else:
-                t = self.transform(weights)
+                # like fill(), transform only the rows whose weight is > 0 (transform(0) need not be 0)
+                t = self.transform(weights[weights > 0.0])
                 assert len(t.shape) == 1
-                if shape[0] is not None:
-                    assert t.shape[0] == shape[0]
                 self.entries += float(t.sum())
 
         elif shape[0] is not None:
